@@ -531,7 +531,7 @@ def gen_case(rng, cid, allow_sleep, allow_stop, handover=None):
             s.cgone.add(c)
             s.busy.pop(c, None)
         elif allow_sleep and nsleep < 2 and pend:
-            s.sleep(rng.choice([1300, 1300, 400]))
+            s.sleep(rng.choice([1300, 1300, 300]))    # two partial sleeps stay 400 ms short of the deadline
             nsleep += 1
     if allow_sleep and nsleep == 0 and any(not t["done"] and t["timed"] for t in s.tasks) and not s.stopped:
         s.sleep(1300)
